@@ -161,6 +161,25 @@ def run(ctx):
             ctx.count()
             # the production path: annet.gen._old_new_per_device completes old and new itself (add_implicit), for a normal run and for
             # `--clear` (no_new: nothing is generated); the patch between what it returns obeys the same clause
+            # a blank device (`--config empty`): nothing is read, the device side is the completion of nothing
+            if not t and "exc" not in rec and k % 2 == 0:
+                prec = dict(rec, id=rec["id"] + "-blank")
+                try:
+                    gdev = genrun.Dev(hw)
+                    gdev.tags = set(tags)
+                    gen = genrun.make_generator("GenAll", genrun.tree_prog(u), "~  %global\n", hw.vendor)
+                    probe = genrun.old_new(gdev, [gen], running_text=None, add_implicit=False)
+                    if probe.err is not None or probe.old:
+                        raise LookupError("the vendor starts a blank device from an initial configuration of its own")
+                    res = genrun.old_new(gdev, [gen], running_text=None, add_implicit=True)
+                    if res.err is not None:
+                        raise res.err
+                    _d, p = api._diff_and_patch(E.device(hw), res.old, res.new, res.acl_rules, None, False)
+                    prec["cmds"] = cases.jpaths(fmt.cmd_paths(p))
+                    recs.append(prec)
+                    ctx.count()
+                except Exception as e:
+                    ctx.skip("production path (blank device) not judged: %s" % type(e).__name__)
             if k % 4 == 0 and "exc" not in rec and t:      # (an empty running config makes annet start from the vendor's initial config instead)
                 no_new = (k % 8 == 0)
                 u_eff = od() if no_new else u
